@@ -115,8 +115,11 @@ func (b *BoundedIterator) Seek(target []byte) bool {
 		target = b.start
 	}
 
-	// If target is at or after end bound, the seek will fail
+	// If target is at or after end bound, the seek will fail. The wrapped
+	// iterator is moved all the same: left where it was, an iterator that had
+	// been positioned before would stay valid on a key below the target
 	if b.end != nil && bytes.Compare(target, b.end) >= 0 {
+		b.Iterator.Seek(target)
 		return false
 	}
 
